@@ -99,7 +99,7 @@ func (a *Real64) ConvertConstScalar(t ScalarType) ConstScalar {
   case Real64Type:
     return a
   default:
-    return NewConstScalar(t, a.GetFloat64())
+    return convertConstScalar(t, a)
   }
 }
 /* stringer
